@@ -45,6 +45,16 @@ is its value at every sufficient fuel and a fixed point of one activation (`fuel
 `fuel_monotone_counterexample`); the full model `unifyF` needs two activations (`unify_fuel_two`).
 `UnifyLaws` and `SetLaws` are proved of the environment the C09 driver runs (`unifyLaws_driver`,
 `setLaws_driver`, `…_driver` corollaries).
+
+d09b: (1) the type component of `unifyF` IS `unifyTy` (`unify_type_is_unifyTy`, `unify_type_eq`: the two
+transliterations of unify.go are one function, so the `unifyTy` theorems are about the type `Unify`
+returns); (2) on placeholder-free, well-formed input types the unified type and the target of every
+step of every returned conversion are placeholder-free and well-formed (`unified_plain`,
+`unified_type_plain_std`), which discharges the side conditions of the applied-conversion clauses:
+`convs_yield_unified_plain`, `safe_convs_total_plain`, `no_panic_applied_plain` carry none; (3) the
+model is total from fuel 2 on (`unify_total`, `unify_total_outcome`: never out of fuel, no error
+outcome); (4) `unsafe_of_safe_flat_full` carries the flat closed form over to the full model (through
+the object / tuple sub-unifiers the clause is still only searched).
 -/
 import CtyModel.Lemmas.UnifyTyLaws
 import CtyModel.Lemmas.UnifyProps
@@ -55,6 +65,9 @@ import CtyModel.Lemmas.UnifyFlat
 import CtyModel.Lemmas.d09Fuel
 import CtyModel.Lemmas.d09Fuel2
 import CtyModel.Lemmas.ConvertD08SetEnv
+import CtyModel.Lemmas.d09bTotal
+import CtyModel.Lemmas.d09bPlain
+import CtyModel.Lemmas.d09bTyEq
 namespace CtyModel
 namespace C09
 open Convert Ty Unify
@@ -960,6 +973,184 @@ theorem no_panic_applied_driver (n fuel' : Nat) (uns : Bool) (types : List Ty) (
 former witness, its step targets placeholder-free -/
 example : (unify driverEnv 4 totalWitnessTys).map (fun o => o.map fun r => (r.1, r.2[0]?)) =
     .ok (some (.list (.list .string), some (some totalWitnessConv))) := rfl
+
+/-! ## d09b — totality; placeholder-free inputs need no side condition
+
+`plainTy` = well-formed, no optional-attribute annotation, no DynamicPseudoType anywhere: the
+"placeholder-free" types of the property.  On such inputs the side conditions of the
+applied-conversion theorems (`plainTy t`, `∀ m ∈ stepTargets c, plainTy m`) are THEOREMS
+(Lemmas/d09bPlainTy.lean, d09bPlain.lean), and the model never runs out of fuel (d09bTotal.lean). -/
+
+/-- TOTALITY of the model: with two activations or more `unify` answers a Go outcome — a return
+or a panic, never "out of fuel", and the model has no error outcome — for EVERY environment, mode
+and list of types of any depth … -/
+theorem unify_total_outcome (E : Env) (n : Nat) (uns : Bool) (types : List Ty) :
+    (∃ out, unifyF E (n + 2) uns types = .ok out) ∨ ∃ w, unifyF E (n + 2) uns types = .panic w := by
+  have h := lv_unifyF E uns n types
+  cases hr : unifyF E (n + 2) uns types with
+  | ok o => exact .inl ⟨o, rfl⟩
+  | err c => rw [hr] at h; simp [lv] at h
+  | panic w => exact .inr ⟨w, rfl⟩
+  | unmodelled => rw [hr] at h; simp [lv] at h
+
+/-- … and with `no_panic` it is a return: `unify` is a TOTAL function of the type list (object
+types well-formed, as every `cty.Object(…)` is), answering NilType or a type with its slice.
+This sharpens `no_panic_total`, whose "out of fuel" and "error" disjuncts are empty from fuel 2 on. -/
+theorem unify_total (E : Env) (n : Nat) (uns : Bool) (types : List Ty)
+    (hw : ∀ ty ∈ types, isObjectTy ty = true → ty.wf = true) : ∃ out, unifyF E (n + 2) uns types = .ok out :=
+  unifyF_total E uns n types hw
+
+example : ∃ out, unifyF driverEnv 2 true [.object ["a"] [.string] [false], .tuple [.bool], .dyn] = .ok out :=
+  unify_total _ 0 _ _ (by decide)
+
+/-- The unified TYPE of placeholder-free types is placeholder-free, well-formed and
+annotation-free (`unifyTy`, the type result at sufficient fuel; any depth, either mode). -/
+theorem unified_type_plain_std (uns : Bool) (types : List Ty) (t : Ty) (hp : ∀ ty ∈ types, plainTy ty = true)
+    (h : unifyTy uns types = some t) : plainTy t = true :=
+  unifyTy_plain uns types t hp h
+
+/-- … and at every fuel -/
+theorem unified_type_plain_fuel (n : Nat) (uns : Bool) (types : List Ty) (t : Ty)
+    (hp : ∀ ty ∈ types, plainTy ty = true) (h : unifyTyF n uns types = some t) : plainTy t = true :=
+  unifyTyF_plain n uns types t hp h
+
+/-- The FULL model on placeholder-free inputs: the unified type is placeholder-free and
+well-formed, and so is the type EVERY step of EVERY returned conversion converts to (the result
+type, and the intermediate list / map type of the composed closures) — any environment whose
+`unify` keeps such types (as `unifyTy` does: `unified_type_plain_std`), any fuel, either mode. -/
+theorem unified_plain (E : Env) (hE : PlainPres E.unify) (fuel : Nat) (uns : Bool) (types : List Ty) (t : Ty)
+    (cs : Convs) (hp : ∀ ty ∈ types, plainTy ty = true) (h : unifyF E fuel uns types = .ok (some (t, cs))) :
+    plainTy t = true ∧ ∀ (i : Nat) (c : UConv), cs[i]? = some (some c) → ∀ m ∈ stepTargets c, plainTy m = true := by
+  obtain ⟨ht, hc⟩ := unifyF_plain hE fuel uns types hp t cs h
+  exact ⟨ht, fun i c hi => hc c (List.mem_of_getElem? hi)⟩
+
+theorem plainPres_driver : PlainPres driverEnv.unify := plainPres_std _
+
+/-- THE CLAUSE "each returned conversion applied to any value of its input type yields a value of
+the unified type" for placeholder-free input types, NO side condition left: every slot `Unify` /
+`UnifyUnsafe` returns, direct or composed, applied to any well-typed value of its input type —
+known, unknown, null or marked, any depth — yields a value of exactly the unified type, or an
+error; on the environment the driver runs. -/
+theorem convs_yield_unified_plain (n fuel' : Nat) (uns : Bool) (types : List Ty) (t : Ty) (cs : Convs) (i : Nat)
+    (c : UConv) (v r : Value) (hp : ∀ ty ∈ types, plainTy ty = true)
+    (h : unifyF driverEnv (n + 2) uns types = .ok (some (t, cs))) (hc : cs[i]? = some (some c))
+    (hi : types[i]? = some v.ty) (hv : Value.wt v = true)
+    (ha : applyU driverEnv fuel' c v = .ok r) : r.ty = t ∧ yieldsUnified t r = true := by
+  obtain ⟨ht, hT⟩ := unified_plain driverEnv plainPres_driver (n + 2) uns types t cs hp h
+  exact convs_yield_unified_driver n fuel' uns types t cs i c v r ht h hc hi hv (hT i c hc) ha
+
+/-- THE CLAUSE "… and never fails in safe mode" for placeholder-free input types, no side
+condition left: on a well-typed value without unknown parts (nulls and marks allowed, any depth)
+every returned conversion yields a value of the unified type — no error, no panic (or the fuel
+of `apply`, the model of the conversion itself, ran out). -/
+theorem safe_convs_total_plain (n fuel' : Nat) (types : List Ty) (t : Ty) (cs : Convs) (i : Nat) (c : UConv)
+    (v : Value) (hp : ∀ ty ∈ types, plainTy ty = true) (h : unify driverEnv (n + 2) types = .ok (some (t, cs)))
+    (hc : cs[i]? = some (some c)) (hi : types[i]? = some v.ty) (hv : Value.wt v = true)
+    (hk : Payload.whollyKnown v.v = true) :
+    (∃ r, applyU driverEnv fuel' c v = .ok r ∧ r.ty = t) ∨ applyU driverEnv fuel' c v = .unmodelled := by
+  obtain ⟨ht, hT⟩ := unified_plain driverEnv plainPres_driver (n + 2) false types t cs hp h
+  exact safe_convs_total_driver n fuel' types t cs i c v ht h hc hi hv hk (hT i c hc)
+
+/-- "never panics" for the returned conversions, placeholder-free input types, either mode, no
+side condition left. -/
+theorem no_panic_applied_plain (n fuel' : Nat) (uns : Bool) (types : List Ty) (t : Ty) (cs : Convs) (i : Nat)
+    (c : UConv) (v : Value) (hp : ∀ ty ∈ types, plainTy ty = true)
+    (h : unifyF driverEnv (n + 2) uns types = .ok (some (t, cs))) (hc : cs[i]? = some (some c))
+    (hi : types[i]? = some v.ty) (hv : Value.wt v = true) (hk : Payload.whollyKnown v.v = true) :
+    (applyU driverEnv fuel' c v).isPanic = false := by
+  obtain ⟨ht, hT⟩ := unified_plain driverEnv plainPres_driver (n + 2) uns types t cs hp h
+  exact no_panic_applied_driver n fuel' uns types t cs i c v ht h hc hi hv hk (hT i c hc)
+
+/-- the hypotheses are jointly satisfiable by the former witnesses (composed closures, depth 2) -/
+example : ∀ ty ∈ totalWitnessTys, plainTy ty = true := by decide
+example : ∀ ty ∈ yieldWitnessTys, plainTy ty = true := by decide
+example : (applyU driverEnv 8 totalWitnessConv totalWitnessV).isPanic = false :=
+  no_panic_applied_plain 2 8 false totalWitnessTys _ _ 0 _ totalWitnessV (by decide) rfl rfl rfl (by decide) (by decide)
+
+/-! ## d09b — ONE function: the type component of the full model is `unifyTy`
+
+The harness compares BOTH the type component of `unifyF` and `unifyTy` with the real `Unify` /
+`UnifyUnsafe`; they are the same function (Lemmas/d09bTyEq.lean: one activation of the one has the
+type result of one activation of the other — conversions exist iff the Boolean checks pass, the
+attribute columns looked up by name are the columns by position, the preference loop with its
+reused buffer is `findSome?` — and `unify_type_fixpoint` closes the recursion).  So every theorem
+above about `unifyTy` / `unifyTyF` at sufficient fuel (`unify_equal_types_std`,
+`unsafe_of_safe_flat_std`, `unify_result_reachable_flat_std`, `unify_type_depth`,
+`unified_type_plain_std`) is a theorem about the type `unify` returns. -/
+
+/-- Whenever the full model answers (fuel ≥ 2, either mode, any list of types whose object types
+are well-formed, any environment whose `unify` is `unifyTy`), the type it answers is `unifyTy` of
+the list — NilType exactly where `unifyTy` is `none`. -/
+theorem unify_type_is_unifyTy (base : Env) (n : Nat) (uns : Bool) (types : List Ty) (out : UOut)
+    (hw : ∀ ty ∈ types, isObjectTy ty = true → ty.wf = true)
+    (h : unifyF (Env.std base) (n + 2) uns types = .ok out) : out.map (·.1) = unifyTy uns types :=
+  unifyF_ty (E := Env.std base) rfl n types hw out h
+
+/-- … and it always answers (`unify_total`): the type component of `unify`, as a function of the
+type list, IS `unifyTy`. -/
+theorem unify_type_eq (base : Env) (n : Nat) (uns : Bool) (types : List Ty)
+    (hw : ∀ ty ∈ types, isObjectTy ty = true → ty.wf = true) :
+    (unifyF (Env.std base) (n + 2) uns types).map (fun o => o.map (·.1)) = .ok (unifyTy uns types) := by
+  obtain ⟨out, h⟩ := unify_total (Env.std base) n uns types hw
+  rw [h, Res.map, unify_type_is_unifyTy base n uns types out hw h]
+
+/-- hence `unifyTyF` at every sufficient fuel too (with `fuel_enough`) -/
+theorem unify_type_eq_fuel (base : Env) (n m : Nat) (uns : Bool) (types : List Ty)
+    (hw : ∀ ty ∈ types, isObjectTy ty = true → ty.wf = true) (hm : 2 * tyDepthL types + 2 ≤ m) :
+    (unifyF (Env.std base) (n + 2) uns types).map (fun o => o.map (·.1)) = .ok (unifyTyF m uns types) := by
+  rw [(fuel_enough uns types m hm).1]; exact unify_type_eq base n uns types hw
+
+/-- e.g. the depth bound and the flat-type reachability, now about the type `Unify` returns -/
+theorem unify_result_depth (base : Env) (n : Nat) (uns : Bool) (types : List Ty) (t : Ty) (cs : Convs)
+    (hw : ∀ ty ∈ types, isObjectTy ty = true → ty.wf = true)
+    (h : unifyF (Env.std base) (n + 2) uns types = .ok (some (t, cs))) : tyDepth t ≤ tyDepthL types :=
+  unify_type_depth uns types t (unify_type_is_unifyTy base n uns types _ hw h).symm
+
+example : (unifyF driverEnv 2 false fuelWitnessTys).map (fun o => o.map (·.1)) = .ok (some (.list (.map .string))) := by
+  rw [show driverEnv = Env.std (Env.concrete unifyTy) from rfl, unify_type_eq _ 0 _ _ (by decide)]; rfl
+
+/-- Clause "unsafe unification succeeds whenever safe unification does" on the FULL model, closed
+form for the types built from primitives, capsule types, lists, sets and maps (any depth, any
+length): where `Unify` returns a type with its conversions, so does `UnifyUnsafe`.  (`unsafe_of_safe_flat`
+was a statement about `unifyTyF`; `unify_type_eq` and `unify_total` carry it over.)  Through the
+object / tuple sub-unifiers the clause is still searched, not proved; with placeholders it is
+false (`unsafe_of_safe_counterexample`). -/
+theorem unsafe_of_safe_flat_full (base : Env) (n : Nat) (types : List Ty) (t : Ty) (cs : Convs)
+    (hf : ∀ x ∈ types, flat x = true) (h : unify (Env.std base) (n + 2) types = .ok (some (t, cs))) :
+    ∃ t' cs', unifyUnsafe (Env.std base) (n + 2) types = .ok (some (t', cs')) := by
+  have hw : ∀ ty ∈ types, isObjectTy ty = true → ty.wf = true := by
+    intro ty hty ho
+    have := hf ty hty
+    cases ty <;> simp [isObjectTy] at ho
+    simp [flat] at this
+  have h1 : unifyTy false types = some t := (unify_type_is_unifyTy base n false types _ hw h).symm
+  obtain ⟨t', ht'⟩ := unsafe_of_safe_flat_std types t hf h1
+  obtain ⟨out, ho⟩ := unify_total (Env.std base) n true types hw
+  have h2 := unify_type_is_unifyTy base n true types out hw ho
+  rw [ht'] at h2
+  cases out with
+  | none => simp at h2
+  | some r => exact ⟨r.1, r.2, ho⟩
+
+example : ∃ t' cs', unifyUnsafe driverEnv 2 [.list (.set .bool), .list (.list .string)] = .ok (some (t', cs')) :=
+  unsafe_of_safe_flat_full (Env.concrete unifyTy) 0 _ (.list (.list .string)) _ (by decide) rfl
+
+/-- The three applied-conversion clauses for placeholder-free inputs in ANY environment that
+satisfies the laws and whose `unify` keeps placeholder-free types placeholder-free (not only the
+driver's): the full statements `ConvsYieldUnified` / `SafeConvsTotal` / `NoPanicApplied` restricted
+by exactly that one extra assumption on `E` (and, for the last two, values without unknown parts). -/
+theorem applied_clauses_plain_env (E : Env) (hU : UnifyLaws E) (hS : SetLaws E) (hE : PlainPres E.unify)
+    (fuel fuel' : Nat) (uns : Bool) (types : List Ty) (t : Ty) (cs : Convs) (i : Nat) (c : UConv) (v : Value)
+    (hp : ∀ ty ∈ types, plainTy ty = true) (h : unifyF E fuel uns types = .ok (some (t, cs)))
+    (hc : cs[i]? = some (some c)) (hi : types[i]? = some v.ty) (hv : Value.wt v = true) :
+    (∀ r, applyU E fuel' c v = .ok r → r.ty = t ∧ yieldsUnified t r = true) ∧
+    (Payload.whollyKnown v.v = true → (applyU E fuel' c v).isPanic = false ∧
+      (uns = false → (∃ r, applyU E fuel' c v = .ok r ∧ r.ty = t) ∨ applyU E fuel' c v = .unmodelled)) := by
+  obtain ⟨ht, hT⟩ := unified_plain E hE fuel uns types t cs hp h
+  refine ⟨fun r ha => convs_yield_unified_slots_wt_partial E hU fuel fuel' uns types t cs i c v r ht h hc hi hv (hT i c hc) ha,
+    fun hk => ⟨no_panic_applied_slots_wt_partial E hU hS fuel fuel' uns types t cs i c v ht h hc hi hv hk (hT i c hc), ?_⟩⟩
+  intro hu; subst hu
+  exact safe_convs_total_slots_wt_partial E hU hS fuel fuel' types t cs i c v ht h hc hi hv hk (hT i c hc)
 
 end C09
 end CtyModel
